@@ -383,6 +383,16 @@ def call_contract(E, qual, args, node, self_first=False):
     E.entry_env = dict(bound)
     E.entry_sdicts = {k: _sdict_snapshot(v) for k, v in bound.items() if isinstance(v, SDict)}
     E.entry_frames = {k: _frame_snapshot(v) for k, v in bound.items() if isinstance(v, Frame)}
+    saved_final = getattr(E, 'final_env', None)
+    exposed = c0.get('exposed_locals') or {}
+    n_call0 = sum(1 for q_, _, _ in E.st.calls if q_ == qual) + 1
+    if exposed:
+        # clauses of the callee about its own locals (local('x')): at the call site those locals are existentially
+        # quantified - one fresh constant per local, shared by all clauses of this call
+        E.final_env = {nm: E.fresh_z(short.split('.')[-1] + '.' + nm, ty) for nm, ty in exposed.items()}
+        E.st.ghost.setdefault('call_locals', {})['%s#%d' % (short.split('.')[-1], n_call0)] = dict(E.final_env)
+    else:
+        E.final_env = None
     try:
         if maker is None:
             result = None
@@ -402,6 +412,7 @@ def call_contract(E, qual, args, node, self_first=False):
     finally:
         E.st.entry_heap, E.entry_env, E.entry_sdicts, E.entry_frames = saved_entry
         E.entry_objs = saved_objs
+        E.final_env = saved_final
     E.st.calls.append((qual, bound, result))
     return result
 
@@ -1807,3 +1818,60 @@ def frame_reset_index(E, f, args, node):
         E.mutate(f.ident, node, 'reset_index(inplace=True)')
         return None
     return frame_copy(E, f, args, node)
+
+
+@libfn('numpy.interp')
+def np_interp(E, args, node):
+    """ASSUMED library contract of np.interp(x, xp, fp) for a non-empty, strictly increasing xp and finite fp (both are
+    obligations at the call): the result has x's length and is finite; equals fp[0] / fp[-1] at and outside the end
+    knots; takes the value fp[k] where x equals xp[k]; and on every knot interval [xp[s], xp[s+1]] it is strictly
+    increasing, strictly decreasing or constant in x according to fp[s] <, >, == fp[s+1].  (Weaker than the exact
+    linear formula, which is not needed and would bring nonlinear arithmetic; true of it in real arithmetic.)"""
+    x, xp, fp = args.get(0, 'x'), args.get(1, 'xp'), args.get(2, 'fp')
+    if not all(isinstance(v, Arr) and v.ndim == 1 for v in (x, xp, fp)) or args.kw:
+        raise Unsupported('np.interp of %r' % ((x, xp, fp),))
+    n = x.n if not isinstance(x.n, int) else z3.IntVal(x.n)
+    m = xp.n if not isinstance(xp.n, int) else z3.IntVal(xp.n)
+    num = lambda a, i: to_real(lift(E.rd(a, i))) if a.ty != XR else None
+    if x.ty == XR or xp.ty == XR:
+        raise Unsupported('np.interp over possibly non-finite abscissae')
+    X_ = lambda i: num(x, i)
+    XP = lambda k: num(xp, k)
+    FP = lambda k: xops.to_x(E.rd(fp, k))
+    k = z3.Int(fresh_name('k'))
+    if not E.spec_mode:
+        # proof hook just before the call's own obligations (the selected knots exist only as arguments)
+        E.st.ghost['interp_args'] = dict(x=x, xp=xp, fp=fp)
+        E.run_hook(('before_lib', 'numpy.interp', len(E.st.ghost.get('interp', [])) + 1), node)
+        E.oblige('lib-pre', z3.And(m >= 1, _eq_len(xp.n, fp.n)), node, 'np.interp: sample points non-empty, fp of the same length')
+        E.oblige('lib-pre', z3.ForAll([k], z3.Implies(z3.And(k >= 0, k < m - 1), XP(k) < XP(k + 1))), node,
+                 'np.interp: sample points strictly increasing')
+        E.oblige('lib-pre', z3.ForAll([k], z3.Implies(z3.And(k >= 0, k < m), xops.isfin(FP(k)))), node,
+                 'np.interp: finite values')
+    out = E.new_arr(z3.simplify(n), XR, base='interp')
+    O = lambda i: E.rd(out, i)
+    seg = z3.Function(fresh_name('seg'), z3.IntSort(), z3.IntSort())
+    i, i2, s = z3.Int(fresh_name('i')), z3.Int(fresh_name('i')), z3.Int(fresh_name('s'))
+    inr = lambda v: z3.And(v >= 0, v < n)
+    lt, eq = xops.lt, xops.eq
+    sch = dict(
+        fin=lambda a: z3.Implies(inr(a), z3.And(xops.isfin(O(a)), xops.wf(O(a).t))),
+        left=lambda a: z3.Implies(z3.And(inr(a), X_(a) <= XP(0)), xops.same(O(a), FP(0))),
+        right=lambda a: z3.Implies(z3.And(inr(a), X_(a) >= XP(m - 1)), xops.same(O(a), FP(m - 1))),
+        seg=lambda a: z3.Implies(z3.And(inr(a), m >= 2, XP(0) <= X_(a), X_(a) <= XP(m - 1)),
+                                 z3.And(seg(a) >= 0, seg(a) <= m - 2, XP(seg(a)) <= X_(a), X_(a) <= XP(seg(a) + 1))),
+        knot=lambda a, b: z3.Implies(z3.And(inr(a), b >= 0, b < m, X_(a) == XP(b)), xops.same(O(a), FP(b))),
+        mono=lambda a, a2, b: z3.Implies(
+            z3.And(inr(a), inr(a2), b >= 0, b < m - 1, XP(b) <= X_(a), X_(a) < X_(a2), X_(a2) <= XP(b + 1)),
+            z3.And(z3.Implies(lt(FP(b), FP(b + 1)), lt(O(a), O(a2))),
+                   z3.Implies(lt(FP(b + 1), FP(b)), lt(O(a2), O(a))),
+                   z3.Implies(xops.same(FP(b), FP(b + 1)), xops.same(O(a), O(a2))))))
+    ax = [z3.ForAll([i], sch['fin'](i)), z3.ForAll([i], sch['left'](i)), z3.ForAll([i], sch['right'](i)),
+          z3.ForAll([i], sch['seg'](i)), z3.ForAll([i, s], sch['knot'](i, s)), z3.ForAll([i, i2, s], sch['mono'](i, i2, s))]
+    for f in ax:
+        E.assumptions_quant(f)
+    cnt = len(E.st.ghost.setdefault('interp', []))
+    E.st.ghost['interp'].append(dict(out=out, x=x, xp=xp, fp=fp, seg=seg, m=m, n=n, sch=sch))
+    E.st.ghost.setdefault('facts', {})['interp#%d' % (cnt + 1)] = ax
+    E.stats.setdefault('definitions', [])
+    return out
